@@ -70,6 +70,13 @@ CLAIMED = {
             'Monotonicity with Z,f live: search only. Tie: bit-exact correspondence of constructor and altitude look-ups.',
             'hand Lean model + real-analysis bounds, regenerated constants, bit-exact differential run, ISA/grid oracle',
             '5 C08'),
+    'C02': ('Theorems over the zero-finder model, generic in the miss function: a returned elevation has its sampled miss (height of the '
+            'trajectory interpolated at the zero distance minus the sight-line height there) within the accuracy; otherwise an error is raised '
+            '(propagated unchanged, or ZeroFindingError above the accuracy with bounded iterations); failed zero leaves the stored zero; '
+            'PARTIAL convergence theorem (contraction is a hypothesis). Tie: bit-exact correspondence of zero_angle incl. error payloads; '
+            'fire-back oracle on the real code.',
+            'hand Lean model + induction over iterations, bit-exact differential run, fire-back oracle',
+            '5 C02'),
     'C03': ('Theorem C03_rows_exact over the loop+filter model for EVERY state sequence (any physics) that moves forward with per-step advance <= '
             'min(calc_step, step): exactly the rows 0, step, ..., K*step, one each, all multiples up to the range, at most one integration step beyond, '
             'strictly increasing times, muzzle row first (loop invariant, induction over iterations); default step = 11 rows; time-step record rule. '
